@@ -167,7 +167,7 @@ class AutoCheckpoint(Contract):
                 d = cur_snap
                 p.prove(z3.And(z3.BoolVal(isinstance(d.get("path"), Str) and d["path"].v == g["path"].v), to_int(d["every"]) == g["every"], I.truth(d["save_config"]) == g["sc"],
                                I.truth(d["save_flow"]) == g["sf"], z3.Not(I.truth(d["saved_config"])), z3.Not(I.truth(d["saved_flow"]))),
-                        f"{q}:C19:C14:defaults inside the context are the requested ones with both saved flags cleared {tag}")
+                        f"{q}:C19:C14:C12:defaults inside the context are the requested ones (path, cadence, what to save) with both saved flags cleared {tag}")
             p.prove(z3.BoolVal(v is a), f"{q}:C19:the context yields the instance {tag}")
         if not sh["prev"]:
             p.prove(z3.BoolVal("_checkpoint_defaults" not in a.f), f"{q}:C19:C14:checkpoint defaults removed again on exit (the instance stops writing to that file) {tag}")
